@@ -156,7 +156,7 @@ func NewOnDB(db dbm.DB, g Genesis) *Chain {
 	app.InitChain(abci.RequestInitChain{
 		Time:            t0,
 		Validators:      []abci.ValidatorUpdate{},
-		ConsensusParams: sifapp.DefaultConsensusParams,
+		ConsensusParams: consensusParams,
 		AppStateBytes:   stateBytes,
 	})
 	app.Commit()
@@ -164,10 +164,21 @@ func NewOnDB(db dbm.DB, g Genesis) *Chain {
 	return c
 }
 
+// consensusParams are the test-helper defaults with the block gas limit lifted: how many transactions the harness packs
+// into one block is not something any property speaks about, and a transaction cut off by the block gas meter is not a
+// behaviour of the modules under study.
+var consensusParams = func() *abci.ConsensusParams {
+	p := *sifapp.DefaultConsensusParams
+	b := *p.Block
+	b.MaxGas = -1
+	p.Block = &b
+	return &p
+}()
+
 // Replay re-executes a recorded run on a fresh application instance and returns what each call returned.
 func Replay(genesis []byte, t0 time.Time, ops []Op) []Op {
 	app := newApp(dbm.NewMemDB())
-	app.InitChain(abci.RequestInitChain{Time: t0, Validators: []abci.ValidatorUpdate{}, ConsensusParams: sifapp.DefaultConsensusParams, AppStateBytes: genesis})
+	app.InitChain(abci.RequestInitChain{Time: t0, Validators: []abci.ValidatorUpdate{}, ConsensusParams: consensusParams, AppStateBytes: genesis})
 	app.Commit()
 	out := make([]Op, len(ops))
 	for i, o := range ops {
@@ -379,7 +390,7 @@ func NewFromExport(appState []byte, height int64, t time.Time) (c *Chain, err er
 	app.InitChain(abci.RequestInitChain{
 		Time:            t,
 		Validators:      []abci.ValidatorUpdate{},
-		ConsensusParams: sifapp.DefaultConsensusParams,
+		ConsensusParams: consensusParams,
 		AppStateBytes:   appState,
 		InitialHeight:   height,
 	})
